@@ -865,6 +865,11 @@ impl<'a> Run<'a> {
                     },
                     "deref_missing" => vec![(0, Operation::DereferenceTree(u.tkey(k)))],
                     "plain_op" => vec![(1, Operation::Set(u.xkey(1), vec![9])), (0, Operation::Set(u.tkey(k), vec![1]))],
+                    // a valid insertion (it claims two nodes) followed by one that cannot be stored
+                    "ins_then_wide" => vec![
+                        (0, Operation::InsertTree(u.tkey(k), NewNode { data: vec![4, 5], children: vec![leaf(1), leaf(2)] })),
+                        (0, Operation::InsertTree(u.tkey(k), NewNode { data: vec![6], children: (0..256).map(leaf).collect() })),
+                    ],
                     _ => vec![
                         (0, Operation::InsertTree(u.tkey(k), NewNode { data: vec![4, 5], children: vec![leaf(1), leaf(2)] })),
                         (0, Operation::Set(u.tkey(k), vec![1])),
@@ -1605,7 +1610,7 @@ pub fn cmd_record(args: &HashMap<String, String>) -> i32 {
             } else if r < 96 {
                 let free: Vec<u64> = (1..=nt).filter(|k| !m.ideal.contains_key(k) && m.visible_root(*k).is_none() && !m.locked.contains_key(k)).collect();
                 if let Some(k) = free.first() {
-                    let why = ["wide", "deref_missing", "plain_op", "ins_then_bad"][rng.gen_range(0..4)];
+                    let why = ["wide", "deref_missing", "plain_op", "ins_then_bad", "ins_then_wide"][rng.gen_range(0..5)];
                     if !(u.v.ao && why == "deref_missing") {
                         run.step(&json!({"a": "Reject", "why": why, "k": k, "n": 256 + rng.gen_range(0..60)}))?;
                         out.push(json!({"e": "Reject"}));
